@@ -74,10 +74,22 @@ func (s *c14Source) Read(buf []byte) (int, error) {
 	return 0, os.ErrDeadlineExceeded
 }
 
-// c14Sink discards; only the goroutine that calls SendProbe touches it.
-type c14Sink struct{ sent int }
+// c14Sink discards; only the goroutine that calls SendProbe touches it. failAt >= 0: that write fails
+// (scenario sendfail: the error path of SendProbe runs while the receiver is handling replies).
+type c14Sink struct {
+	sent   int
+	failAt int
+}
 
-func (s *c14Sink) WriteTo([]byte, netip.AddrPort) error { s.sent++; return nil }
+var errC14SendFail = errors.New("c14: injected send failure")
+
+func (s *c14Sink) WriteTo([]byte, netip.AddrPort) error {
+	s.sent++
+	if s.failAt > 0 && s.sent == s.failAt {
+		return errC14SendFail
+	}
+	return nil
+}
 func (s *c14Sink) Close() error                         { return nil }
 
 // ---- reply builders (gopacket) ------------------------------------------------------------------
@@ -133,6 +145,23 @@ func c14UDPTimeExceeded(ttl, maxTTL uint8) []byte {
 	return c14Serialize(c14IP(from, c14Local.Addr(), layers.IPProtocolICMPv4, 9), &layers.ICMPv4{TypeCode: tc}, gopacket.Payload(inner))
 }
 
+var (
+	c14Local6  = netip.MustParseAddr("2001:db8::10")
+	c14Target6 = netip.MustParseAddr("2001:db8:9::9")
+)
+
+// c14Icmp6TimeExceeded: ICMPv6 time-exceeded from a router quoting our echo request (id, seq = ttl);
+// for the last TTL an echo reply from the target.
+func c14Icmp6TimeExceeded(id uint16, ttl, maxTTL uint8) []byte {
+	rest := [4]byte{byte(id >> 8), byte(id), 0, ttl}
+	if ttl == maxTTL {
+		return ip6Packet(c14Target6, c14Local6, 58, 60, icmp6Msg(c14Target6, c14Local6, 129, 0, rest, []byte{ttl}))
+	}
+	q := ip6Packet(c14Local6, c14Target6, 58, 1, icmp6Msg(c14Local6, c14Target6, 128, 0, rest, []byte{ttl}))
+	from := netip.MustParseAddr(fmt.Sprintf("fd00:14::%x", ttl))
+	return ip6Packet(from, c14Local6, 58, 60, icmp6Msg(from, c14Local6, 3, 0, [4]byte{}, q))
+}
+
 // ---- one run of a real driver under the real parallel engine -------------------------------------
 
 type c14Stats struct{ runs, sends, reads, accepted int }
@@ -171,6 +200,10 @@ func c14Run(r *hx.RNG, kind string) (c14Stats, []*common.ProbeResponse, common.T
 	maxTTL := uint8(r.Range(6, 16))
 	pp := c14EngineParams(r, maxTTL)
 	src, sink := &c14Source{budget: r.Range(200, 3000)}, &c14Sink{}
+	if strings.HasSuffix(kind, "+sendfail") {
+		kind = strings.TrimSuffix(kind, "+sendfail")
+		sink.failAt = r.Range(2, int(maxTTL))
+	}
 	var drv common.TracerouteDriver
 	switch kind {
 	case "sack":
@@ -186,6 +219,10 @@ func c14Run(r *hx.RNG, kind string) (c14Stats, []*common.ProbeResponse, common.T
 		drv = icmp.VerifNewDriver(icmp.Params{Target: c14Target.Addr(), ParallelParams: pp}, c14Local.Addr(), sink, src)
 		id := icmp.VerifEchoID(drv)
 		src.pkts = c14Order(r, uint8(r.Range(2, 6)), maxTTL, func(ttl uint8) []byte { return c14EchoReply(id, ttl) })
+	case "icmp6":
+		drv = icmp.VerifNewDriver(icmp.Params{Target: c14Target6, ParallelParams: pp}, c14Local6, sink, src)
+		id := icmp.VerifEchoID(drv)
+		src.pkts = c14Order(r, 1, maxTTL, func(ttl uint8) []byte { return c14Icmp6TimeExceeded(id, ttl, maxTTL) })
 	case "udp":
 		cfg := udp.NewUDPv4(net.IP(c14Target.Addr().AsSlice()), c14Target.Port(), 1, maxTTL, pp.SendDelay, pp.TracerouteTimeout, false)
 		drv = udp.VerifNewDriver(cfg, net.IP(c14Local.Addr().AsSlice()), c14Local.Port(), sink, src)
@@ -195,6 +232,9 @@ func c14Run(r *hx.RNG, kind string) (c14Stats, []*common.ProbeResponse, common.T
 	}
 	packets.AllocPacketID(maxTTL) // the packet-id allocator, as the TCP constructor uses it
 	res, err := common.TracerouteParallel(context.Background(), drv, pp)
+	if sink.failAt > 0 && errors.Is(err, errC14SendFail) {
+		err = nil // the injected failure ends the run with its cause, as it must
+	}
 	if c, ok := drv.(interface{ Close() }); ok {
 		c.Close()
 	} else if c, ok := drv.(interface{ Close() error }); ok {
@@ -238,15 +278,21 @@ func c14Child(t *testing.T, scenario string) {
 			}
 			wg.Wait()
 			total.runs++
-		case "sack", "icmp", "udp":
+		case "sack", "icmp", "udp", "icmp6":
 			st, _, _, err := c14Run(r.Fork(), scenario)
 			fail(err)
 			total.add(st)
+		case "sendfail": // a SendProbe fails while replies (also for that TTL) are being handled
+			for _, kind := range []string{"sack", "udp", "icmp", "icmp6"} {
+				st, _, _, err := c14Run(r.Fork(), kind+"+sendfail")
+				fail(err)
+				total.add(st)
+			}
 		case "concurrent": // K runs at once: per-run state is separate, allocators are shared
 			var wg sync.WaitGroup
-			stats := make([]c14Stats, 4)
+			stats := make([]c14Stats, 6)
 			for k := range stats {
-				rk, kind := r.Fork(), []string{"icmp", "udp", "sack", "icmp"}[k]
+				rk, kind := r.Fork(), []string{"icmp", "udp", "sack", "icmp", "icmp6", "icmp6"}[k]
 				wg.Add(1)
 				go func() {
 					defer wg.Done()
@@ -381,7 +427,7 @@ func TestC14(t *testing.T) {
 		t.Fatal("C14: control race not reported; is the test binary built with -race?")
 	}
 	rep.Hit("control:race-reported")
-	scenarios := []string{"sack", "icmp", "udp", "concurrent", "multi"}
+	scenarios := []string{"sack", "icmp", "udp", "icmp6", "sendfail", "concurrent", "multi"}
 	budget, rounds, deadline := 1500*time.Millisecond, 2, time.Now().Add(time.Hour)
 	if env.Thorough() {
 		budget, rounds, deadline = 5*time.Second, 1<<30, time.Now().Add(10*time.Minute)
